@@ -53,7 +53,7 @@ class H9(SMHooks):
     def __init__(self):
         SMHooks.__init__(self)
         self.signs = Signs({'w', 'w0', 'w1', 'w2', 'p0', 'p1', 'gam', 'sig',
-                            'c', 'q0', 'q1', 'q2'})
+                            'c', 'q0', 'q1', 'q2', 'h0', 'h1'})
 
     def atom1(self, name):
         if name == 'sign':
